@@ -448,7 +448,10 @@ def perturb_verdicts(out):
         elif l.startswith("impl ") and pend:
             entered = True
         elif l.startswith("perturbed ") and cur is not None:
-            f = dict(x.split("=") for x in l.split()[1:])
-            runs[cur].append((int(f["op"]), int(f["slot"]), int(f["delta"]), int(f["refused"]), entered))
+            try:
+                f = dict(x.split("=") for x in l.split()[1:])
+                runs[cur].append((int(f["op"]), int(f["slot"]), int(f["delta"]), int(f["refused"]), entered))
+            except (ValueError, KeyError):
+                pass            # a line cut short by an abort: the exit status reports it
             pend = None
     return runs
